@@ -161,6 +161,24 @@ def run_linear(ctx, idx0):
                         want = 20 * len(ops) if loop == 'inner' else 20
                         if len(r) != want:
                             ctx.violation('kaczmarz', cfg + ';loop=' + loop, 'callback-count', got=len(r), want=want)
+                    # random order, three blocks of very different scale, per-operator relaxation (each omega_i is admissible for
+                    # its own block only: used with another block it overshoots)
+                    rows3 = [ix for ix in np.array_split(np.arange(m), 3) if len(ix)]
+                    scl = [1.0, 30.0, 0.05][:len(rows3)]
+                    ops3 = [WMat(sc_ * Am[ix], X, odl.rn(len(ix))) for sc_, ix in zip(scl, rows3)]
+                    rh3 = [odl.rn(len(ix)).element(sc_ * bc[ix]) for sc_, ix in zip(scl, rows3)]
+                    oms3 = [1.9 / np.linalg.norm(sc_ * Am[ix] / np.sqrt(wX), 2) ** 2 for sc_, ix in zip(scl, rows3)]
+                    for trial in range(3):
+                        np.random.seed(1000 * idx + trial)
+                        r = trace.Recorder()
+                        x = X.element(rng.normal(size=n))
+                        x00 = np.asarray(x).copy()
+                        S.kaczmarz(ops3, x, rh3, 6, omega=oms3, random=True, callback=r, callback_loop='inner')
+                        ds = [np.linalg.norm(it - xs) for it in [x00] + r.iterates]
+                        ctx.ev('monotone')
+                        if trace.nonincreasing(ds) is not None:
+                            ctx.violation('kaczmarz', cfg + ';random-order', 'monotone:distance-increased', at=trace.nonincreasing(ds))
+                            break
                     if cc == 'well':
                         ctx.ev('bounded-progress')
                         x = X.element(rng.normal(size=n))
